@@ -48,5 +48,5 @@ Theorem c17_partial_archetype_move_keeps_storage_consistent :
     exists w', move_entity w (sai, srow) dst nw = ROk tt w' /\ StoreInv w' /\
                (forall k c, k <> e -> abs w' k c = abs w k c) /\
                (forall c, abs w' e c = row_col da dvals c).
-Proof. exact move_entity_ok. Qed.
+Proof. exact move_entity_ok_core. Qed.
 Print Assumptions c17_partial_archetype_move_keeps_storage_consistent.
